@@ -63,7 +63,7 @@ func logErfcTaylor(n int) []*big.Float {
 // ---- R5: LogErfc -----------------------------------------------------------------------------------------------------
 
 func checkLogErfc(c *core.Ctx) {
-	c.Rule("C13.R5", "LogErfc: three pieces partition the real line and the middle one is log(erfc x); the series of the piece around zero has truncation plus coefficient error below half an ulp on its interval (coefficients compared with the exact Taylor coefficients of log erfc); the rational piece has the asymptotic leading ratio 1/sqrt(pi)", 3)
+	c.Rule("C13.R5", "LogErfc: three pieces partition the real line and the middle one is log(erfc x); the series of the piece around zero has truncation plus coefficient error below half an ulp on its interval (coefficients compared with the exact Taylor coefficients of log erfc); the rational piece has the asymptotic leading ratio 1/sqrt(pi) and is accurate to half an ulp of log erfc from its switch-over point on", 4)
 	p := c.Pkg("special")
 	if p == nil {
 		c.Unknown("C13.R5", "special", "package loaded", token.NoPos, "not loaded")
@@ -201,7 +201,7 @@ func checkLogErfc(c *core.Ctx) {
 	c.Check(rel.Cmp(half) <= 0, "C13.R5", "special."+seriesFn, "series error on its interval", sfd.Pos(),
 		fmt.Sprintf("on |x| <= %.6g the series differs from log erfc(x) by up to %.3g relative (coefficient deviations from the Taylor coefficients of log erfc plus the truncated terms up to order %d), more than half an ulp: the switch-over threshold is too large for the number of terms, or a coefficient is wrong", func() float64 { f, _ := xmax.Float64(); return f }(), relf, n))
 	c.Assume("C13.R5: the Taylor series of log erfc is summed to order 48; the terms beyond are bounded by the geometric decay of the computed coefficients (nearest zero of erfc at |z| = 2.41)")
-	// (c) the rational piece: leading coefficients
+	// (c) the rational piece: leading coefficients and accuracy from its switch-over point on
 	rfd := findFuncDecl(p, ratFn)
 	var tables [][]*big.Float
 	ast.Inspect(rfd.Body, func(nn ast.Node) bool {
@@ -241,6 +241,74 @@ func checkLogErfc(c *core.Ctx) {
 	} else {
 		c.Unknown("C13.R5", "special."+ratFn, "leading ratio of the rational approximation", rfd.Pos(), "numerator and denominator tables (degrees n and n+1) not found")
 	}
+	// the switch-over point: the guard x > B of the path that returns the rational piece
+	var bound *big.Rat
+	for _, pa := range paths {
+		rt, _ := pa.Ret.(*sym.Term)
+		if rt == nil || len(rt.Atoms()) != 1 || rt.Atoms()[0].Kind != "piece:"+ratFn {
+			continue
+		}
+		for _, cv := range pa.Conds {
+			if cv.V && (cv.C.Op == "gt" || cv.C.Op == "ge") && sym.Equal(cv.C.A, x) {
+				if t, ok := cv.C.B.IsConst(); ok {
+					bound = t
+				}
+			}
+			if cv.V && (cv.C.Op == "lt" || cv.C.Op == "le") && sym.Equal(cv.C.B, x) {
+				if t, ok := cv.C.A.IsConst(); ok {
+					bound = t
+				}
+			}
+		}
+	}
+	if bound == nil || len(tables) != 2 {
+		c.Unknown("C13.R5", "special."+ratFn, "accuracy from the switch-over point on", rfd.Pos(), "the guard x > B of the rational piece (or its tables) was not found")
+		return
+	}
+	worst := 0.0
+	worstAt := 0.0
+	b0 := new(big.Float).SetPrec(400).SetRat(bound)
+	for _, mul := range []string{"1", "1.125", "1.25", "1.5", "2", "3", "5", "10", "100", "1000"} {
+		xv := new(big.Float).SetPrec(400).Mul(b0, bf(mul))
+		num := polyEval(tables[0], xv)
+		den := polyEval(tables[1], xv)
+		got := new(big.Float).SetPrec(400).Quo(num, den)
+		want := erfcxCF(xv)
+		d := new(big.Float).SetPrec(400).Sub(got, want)
+		d.Abs(d)
+		d.Quo(d, want)
+		// relative error of log erfc = (log(got) - log(want)) / |x^2 + ...| <= d / x^2
+		x2 := new(big.Float).SetPrec(400).Mul(xv, xv)
+		d.Quo(d, x2)
+		f, _ := d.Float64()
+		if f > worst {
+			worst = f
+			worstAt, _ = xv.Float64()
+		}
+	}
+	c.Check(worst <= 1.1102230246251565e-16, "C13.R5", "special."+ratFn, "accuracy from the switch-over point on", rfd.Pos(),
+		fmt.Sprintf("the rational approximation is used for x > %s, but at x = %.4g it differs from erfc(x) e^{x^2} (continued fraction, 400 bits) by %.3g relative to |log erfc(x)|, more than half an ulp: the switch-over point is too small for this approximation", bound.RatString(), worstAt, worst))
+}
+
+func polyEval(coefs []*big.Float, x *big.Float) *big.Float {
+	r := bfi(0)
+	for i := len(coefs) - 1; i >= 0; i-- {
+		r = new(big.Float).SetPrec(400).Mul(r, x)
+		r.Add(r, coefs[i])
+	}
+	return r
+}
+
+// erfcxCF: erfc(x) e^{x^2} for x >= 1 by the Laplace continued fraction
+//   sqrt(pi) erfcx(x) = 1 / (x + (1/2) / (x + 1 / (x + (3/2) / (x + 2 / (x + ...))))), evaluated bottom-up with 4000 terms.
+func erfcxCF(x *big.Float) *big.Float {
+	t := new(big.Float).SetPrec(400).Set(x)
+	for k := 4000; k >= 1; k-- {
+		a := new(big.Float).SetPrec(400).Quo(bfi(int64(k)), bfi(2))
+		t = new(big.Float).SetPrec(400).Add(x, new(big.Float).SetPrec(400).Quo(a, t))
+	}
+	sp := new(big.Float).SetPrec(400).Sqrt(bf(piDigits))
+	return new(big.Float).SetPrec(400).Quo(bfi(1), new(big.Float).SetPrec(400).Mul(sp, t))
 }
 
 // polyInX: t is a polynomial in the symbol x whose coefficients are numbers built from rationals, pi and square roots;
